@@ -5,3 +5,9 @@ import RQ.Driver.Proto
 import RQ.Driver.ApplyEngine
 import RQ.Extracted
 import RQ.Props.C03
+import RQ.Props.C20
+import RQ.Props.C02
+import RQ.Props.C04
+import RQ.Model.Dist
+import RQ.Spec.Dist
+import RQ.Driver.DistEngine
